@@ -101,7 +101,10 @@ type engine struct {
 	c        *cache.Cache
 	srv      *subscribe.Server
 	feedHook func(l *ctree.Leaf)
-	streams  []*memStream
+	// afterFeed is called when the announcement returned (a schedule point the unchanged
+	// code does nothing observable at; "announce before the tree write" mutants do)
+	afterFeed func(l *ctree.Leaf)
+	streams   []*memStream
 }
 
 func newEngine(cs *Case, opts ...subscribe.Option) *engine {
@@ -121,6 +124,9 @@ func newEngine(cs *Case, opts ...subscribe.Option) *engine {
 			e.feedHook(l)
 		}
 		srv.Update(l)
+		if e.afterFeed != nil {
+			e.afterFeed(l)
+		}
 	})
 	return e
 }
